@@ -216,6 +216,38 @@ def rerun(only=()) -> int:
     return 1 if bad else 0
 
 
+def batch(root: str, jobs: int = 4) -> int:
+    """Confirm every finished sub-agent result under root/<ID>/out that is not yet kept under /verif/seeded (by ID prefix)."""
+    import concurrent.futures as cf
+    import re
+    kept = {n.split("-")[0] for n in os.listdir(os.path.join(VERIF, "seeded"))}
+    todo = []
+    for ident in sorted(os.listdir(root)):
+        out = os.path.join(root, ident, "out")
+        mp = os.path.join(out, "meta.json")
+        if not os.path.isfile(mp) or not os.path.isfile(os.path.join(out, "patch.diff")):
+            continue
+        try:
+            meta = json.load(open(mp))
+        except Exception:
+            continue
+        neutral = meta.get("kind") == "neutral-refactor"
+        new_id = ("N" + ident[1:]) if neutral else ident
+        if new_id in kept:
+            continue
+        words = re.sub(r"[^a-z0-9]+", "-", " ".join(str(meta.get("scope" if neutral else "summary", "x")).lower().split()[:6])).strip("-")[:44]
+        todo.append((f"{new_id}-{words}", out, neutral))
+
+    def one(t):
+        name, out, neutral = t
+        rc, text = sh([PY, "-m", "vstatic.seedtool", "confirm-neutral" if neutral else "confirm", name, out], cwd=VERIF, timeout=3000)
+        return name, rc, text
+    with cf.ThreadPoolExecutor(max_workers=jobs) as ex:
+        for name, rc, text in ex.map(one, todo):
+            print(text.rstrip()[:1500])
+    return 0
+
+
 def table() -> int:
     """Markdown table of the kept changes (for DESIGN.md section 9)."""
     root = os.path.join(VERIF, "seeded")
@@ -249,6 +281,8 @@ def table() -> int:
 
 
 if __name__ == "__main__":
+    if len(sys.argv) >= 3 and sys.argv[1] == "batch":
+        sys.exit(batch(sys.argv[2]))
     if len(sys.argv) >= 2 and sys.argv[1] == "table":
         sys.exit(table())
     if len(sys.argv) >= 4 and sys.argv[1] == "confirm":
